@@ -1,6 +1,7 @@
 package main
 
 import (
+	"errors"
 	"os/exec"
 	"go.uber.org/zap/zaptest/observer"
 	"bytes"
@@ -149,6 +150,7 @@ func (f *c04Flaky) Sync() error { return nil }
 
 type c04World struct {
 	core   zapcore.Core
+	core2  zapcore.Core // a second core over another handle of the same sink (mutual-exclusion probe only)
 	recs   []*c04Rec
 	sync   []bool // is sink k written synchronously, one whole line per write?
 	finish func()
@@ -171,6 +173,16 @@ func c04Build(kind string, gt *Gate, seq *int64) *c04World {
 		w.sync = []bool{true}
 	case "lock-of-lock":
 		w.core = zapcore.NewCore(c04Enc(), c04Pre{gt, zapcore.Lock(zapcore.Lock(rec())), 1}, zapcore.DebugLevel)
+		w.sync = []bool{true}
+	case "lock-two-handles", "lock-then-combine-two-handles":
+		// one sink locked twice, each handle behind a core of its own (two loggers writing to the same destination)
+		h1 := zapcore.Lock(rec())
+		h2 := zapcore.Lock(h1)
+		if kind == "lock-then-combine-two-handles" {
+			h2 = zap.CombineWriteSyncers(h1)
+		}
+		w.core = zapcore.NewCore(c04Enc(), c04Pre{gt, h1, 1}, zapcore.DebugLevel)
+		w.core2 = zapcore.NewCore(c04Enc(), c04Pre{gt, h2, 1}, zapcore.DebugLevel)
 		w.sync = []bool{true}
 	case "combine":
 		w.core = zapcore.NewCore(c04Enc(), c04Pre{gt, zap.CombineWriteSyncers(rec(), rec()), 1}, zapcore.DebugLevel)
@@ -330,7 +342,7 @@ func checkC04(c *Ctx) {
 	}
 	// mutual exclusion of the sink itself: while one goroutine is parked inside the innermost write of a
 	// lock-protected sink, a second one let through its presink gate must not get inside as well
-	for _, kind := range []string{"lock", "lock-of-lock", "combine", "combine1", "tee-fault"} {
+	for _, kind := range []string{"lock", "lock-of-lock", "combine", "combine1", "tee-fault", "lock-two-handles", "lock-then-combine-two-handles"} {
 		if key, what := c04MutexProbe(kind); key != "" {
 			c.Violation(key, what, map[string]interface{}{"sink": kind, "probe": "mutual-exclusion"})
 		}
@@ -350,6 +362,7 @@ func checkC04(c *Ctx) {
 	}
 	c04ObserverDrain(c)
 	c04FatalExit(c)
+	c04SyncReachesEveryBranch(c)
 	// several goroutines making the first use of one WithLazy logger: every entry arrives, with its context
 	runLazyOnce(c, "C04/", func(k string) bool { return k == "lazy/panic" || k == "lazy/entry-missing" || k == "lazy/context" })
 	c.Set("projected_interleavings", int64(len(keys)))
@@ -665,12 +678,20 @@ func c04MutexProbe(kind string) (key, what string) {
 	defer gt.Drain()
 	w := c04Build(kind, gt, nil)
 	lg := zap.New(w.core, zap.ErrorOutput(zapcore.AddSync(io.Discard)))
+	lg2 := lg
+	if w.core2 != nil {
+		lg2 = zap.New(w.core2, zap.ErrorOutput(zapcore.AddSync(io.Discard)))
+	}
 	for _, p := range []string{"1", "2"} {
 		p := p
 		gi := int(p[0] - '0')
+		l := lg
+		if gi == 2 {
+			l = lg2
+		}
 		gt.Go(p, func() {
 			defer func() { recover() }()
-			lg.Info(fmt.Sprintf("g%d-%d", gi, 1), c04Fields(nil, gi, 1, 40)...)
+			l.Info(fmt.Sprintf("g%d-%d", gi, 1), c04Fields(nil, gi, 1, 40)...)
 		})
 	}
 	for _, p := range []string{"1", "2"} {
@@ -948,6 +969,61 @@ func c04FatalExit(c *Ctx) {
 			c.Violation("C04/entry-lost", fmt.Sprintf("four goroutines log 20 entries each through a BufferedWriteSyncer over a file, then the process logs a Fatal entry and exits: the file holds %d of 81 lines; not exactly once: %v", len(lines), missing), map[string]interface{}{"scenario": "fatal-exit"})
 			return
 		}
+		c.Add("traces_validated_against_impl", 1)
+	}
+}
+
+// c04SyncReachesEveryBranch: Logger.Sync flushes every branch of a tee whatever the other branches' Sync report
+// (a terminal as first destination fails its Sync with ENOTTY): after it, the buffered branch's destination holds
+// the full set, without waiting for Stop.
+type c04TTY struct{ c04Rec }
+
+func (t *c04TTY) Sync() error { return errors.New("sync /dev/stderr: inappropriate ioctl for device") }
+
+func c04SyncReachesEveryBranch(c *Ctx) {
+	for _, order := range []string{"failing-first", "failing-last", "failing-middle"} {
+		tty := &c04TTY{}
+		tty.id = 1
+		rec := &c04Rec{id: 2}
+		rec3 := &c04Rec{id: 3}
+		b := &zapcore.BufferedWriteSyncer{WS: rec, Size: 64 * 1024, FlushInterval: time.Hour}
+		b3 := &zapcore.BufferedWriteSyncer{WS: rec3, Size: 64 * 1024, FlushInterval: time.Hour}
+		cT := zapcore.NewCore(c04Enc(), zapcore.Lock(tty), zapcore.DebugLevel)
+		cB := zapcore.NewCore(c04Enc(), b, zapcore.DebugLevel)
+		cB3 := zapcore.NewCore(c04Enc(), b3, zapcore.DebugLevel)
+		var core zapcore.Core
+		switch order {
+		case "failing-first":
+			core = zapcore.NewTee(cT, cB, cB3)
+		case "failing-last":
+			core = zapcore.NewTee(cB, cB3, cT)
+		default:
+			core = zapcore.NewTee(cB, cT, cB3)
+		}
+		lg := zap.New(core, zap.ErrorOutput(zapcore.AddSync(io.Discard)))
+		const G, N = 4, 25
+		var wg sync.WaitGroup
+		for g := 1; g <= G; g++ {
+			wg.Add(1)
+			go func(g int) {
+				defer wg.Done()
+				for i := 1; i <= N; i++ {
+					lg.Info(fmt.Sprintf("g%d-%d", g, i), c04Fields(nil, g, i, 20)...)
+				}
+			}(g)
+		}
+		wg.Wait()
+		lg.Sync() // reports the terminal's complaint; the other branches are flushed all the same
+		w := &c04World{recs: []*c04Rec{rec, rec3}, sync: []bool{false, false}}
+		counts := map[int]int{}
+		for g := 1; g <= G; g++ {
+			counts[g] = N
+		}
+		if key, what := c04Oracle(w, counts); key != "" {
+			c.Violation(key, what+fmt.Sprintf(" [tee with a branch whose Sync fails (%s) and two buffered branches; after Logger.Sync, before any Stop]", order), map[string]interface{}{"scenario": "sync-reaches-every-branch", "order": order})
+		}
+		b.Stop()
+		b3.Stop()
 		c.Add("traces_validated_against_impl", 1)
 	}
 }
